@@ -81,7 +81,9 @@ int main(int argc, char** argv) {
             integ->setFinalTime(tf);
             integ->initialize(s);
             int nev = 0, ncallsDone = 0;
-            Real rep = has_rep ? in("rep", 0.359375, "time") : tf;     // a pending report time (before the crossing by default)
+            // a pending report time just before the crossing (within the localisation window 1e-4 of it by default: the
+            // bisection then puts tLow exactly on the report time); kind "fixed" = seed not rounded, still a free variable of the spec
+            Real rep = has_rep ? in("rep", 0.37495, "fixed") : tf;
             bool repDone = !has_rep;
             for (int c = 0; c < 8; ++c) {
                 Real target = repDone ? tf : rep;
